@@ -378,4 +378,24 @@ theorem bfs_rule (S : TSys σ κ)
           simp only [hs, check_cache] at h
           exact ih _ _ _ _ (cont s q a cs hI hv' hs) h
 
+/-! ## Invariants of the explored states -/
+
+theorem inv_of_reachC {S : TSys σ κ} {Inv : σ → Prop} (hcl : InvClosed S Inv) {s₀ : σ} (h0 : Inv s₀)
+    {x : σ} (hx : ReachC S s₀ x) : Inv x := by
+  induction hx with
+  | refl => exact h0
+  | step _ _ hs hm ih => exact hcl _ _ ih hs _ hm
+
+theorem inv_of_reachN {S : TSys σ κ} {Inv : σ → Prop} (hcl : InvClosed S Inv) {s₀ : σ} (h0 : Inv s₀)
+    {n : Nat} {x : σ} (hx : ReachN S s₀ n x) : Inv x := by
+  induction hx with
+  | refl => exact h0
+  | step _ _ hs hm ih => exact hcl _ _ ih hs _ hm
+
+theorem Congruent.on {S : TSys σ κ} (hc : Congruent S) : CongruentOn S (fun _ => True) :=
+  fun a b _ _ hk => hc a b hk
+
+theorem invClosed_true (S : TSys σ κ) : InvClosed S (fun _ => True) :=
+  fun _ _ _ _ _ _ => trivial
+
 end Anysystem
